@@ -233,6 +233,6 @@ MANIFEST_ENTRY = {
             "(1 + h/2^k)^(2^k) -> exp h and hence entrywise for every diagonal generator (C11_convergence_scalar, "
             "C11_convergence_diagonal_partial). Partial: convergence for generators with off-diagonal / translation part (matrix "
             "exponential proper) and the second-order inverse consistency exp(v) o exp(-v) for smooth fields are explored numerically on "
-            "the implementation only (not proved). The ExpFlow module is traced (arguments handed to expv on all four call paths). Trusted: Coq kernel, vm_compute, the model of "
+            "the implementation only (not proved). The ExpFlow module is traced (arguments handed to expv on all four call paths), and so is the flag StationaryVelocityFieldTransform gives it at construction and after grid_() / grid(). Trusted: Coq kernel, vm_compute, the model of "
             "F.grid_sample (Model/Sampler.v, validated by the correspondence), symtorch, float rounding outside the model.",
 }
